@@ -1108,6 +1108,11 @@ class MyPyAstVisitor:
                         qname = module_class.id.replace("/", ".")
                         return sds_types.NamedType(name=module_class.name, qname=qname)
 
+                # it may be a class of this module that the walker has not reached yet, or an imported one
+                symbol = self.mypy_file.names.get(mypy_type.name) if self.mypy_file is not None else None
+                if symbol is not None and isinstance(symbol.node, mp_nodes.TypeInfo):
+                    return sds_types.NamedType(name=symbol.node.name, qname=symbol.node.fullname)
+
                 # if not, we check if it's an alias
                 name, qname = self._find_alias(mypy_type.name)
 
